@@ -35,7 +35,8 @@ def table_block(rng):
     k = rng.randint(1, 4)
     pipe = rng.random() < 0.6
     def row(n):
-        cells = [" ".join(rng.choice(gen.WORDS) for _ in range(rng.randint(1, 2))) for _ in range(n)]
+        sep = lambda: (rng.choice(gen.EXOTIC_BREAKS + [" \\| ", "\t"]) if rng.random() < 0.12 else " ")
+        cells = [sep().join(rng.choice(gen.WORDS) for _ in range(rng.randint(1, 2))) for _ in range(n)]
         return ("| " + " | ".join(cells) + " |") if pipe else " | ".join(cells)
     out = [row(k), ("|" + "|".join(rng.choice(["---", ":-:", "--:", ":--"]) for _ in range(k)) + "|") if pipe else " | ".join("---" for _ in range(k))]
     for _ in range(rng.randint(0, 3)):
@@ -87,7 +88,7 @@ def doc(rng):
         parts = [rng.choice(STARTS)]
         for _ in range(rng.randint(0, 8)):
             if rng.random() < 0.5:
-                parts.append(rng.choice(gen.WORDS) + (" " if rng.random() < 0.7 else ""))
+                parts.append(rng.choice(gen.WORDS) + ((rng.choice(gen.EXOTIC_BREAKS) if rng.random() < 0.04 else " ") if rng.random() < 0.7 else ""))
             else:
                 parts.append(rng.choice(TOKS))
         lines.append("".join(parts))
